@@ -24,8 +24,9 @@ PROP = "C16"
 # Proofs/OptGen.lean is listed as well: its theorems are the obligations "generated definition = hand model", and a source
 # edit that breaks one of them is then reported by name
 PROPS_FILES = ["CogentModel/Props/C16.lean", "CogentModel/Props/C16Link.lean", "CogentModel/Proofs/OptGen.lean",
-               "CogentModel/Props/C16Gen.lean"]
-LEAN_TARGETS = ["CogentModel.Props.C16", "CogentModel.Props.C16Link", "CogentModel.Proofs.OptGen", "CogentModel.Props.C16Gen"]
+               "CogentModel/Props/C16Clamp.lean", "CogentModel/Props/C16Gen.lean"]
+LEAN_TARGETS = ["CogentModel.Props.C16", "CogentModel.Props.C16Link", "CogentModel.Proofs.OptGen", "CogentModel.Props.C16Clamp",
+                "CogentModel.Props.C16Gen"]
 DRIVER = "drv_c16"
 TRUSTED = [
     "hand-written model lean/CogentModel/Model/Optimiser.lean of maximise's wrapper stack (limited_use, "
@@ -488,6 +489,15 @@ def _corr_clamp(ctx, out):
         if want != got:
             add_failure(out, "corr", "Calculator.optimise clamp: model differs", dict(x=x, lower=lo, upper=hi), want, got, confirmed=False)
             continue
+        # `clampX` = what the TRANSLATED Calculator.optimise hands to maximise (proved in Proofs/OptGen.lean), evaluated by the
+        # driver over the numpy-mask list environment of Model/OptGenClamp.lean (selL / putL / allcloseL): this ties the
+        # `MaskLaws` reading of `x[m]`, `x[m] = v`, `a > b`, `allclose` (Props/C16Clamp.lean) to the real numpy behaviour
+        gen = None if rep.get("gen_x") is None else [float(unrat(v)) for v in rep["gen_x"]]
+        if gen != got:
+            add_failure(out, "corr", "Calculator.optimise clamp: translated clamp (clampX on the numpy-mask list environment) "
+                        "differs from the real start vector", dict(x=x, lower=lo, upper=hi), gen, got, confirmed=False)
+            continue
+        bump(out, "clamp_generated_agrees", True)
         # (audit) the model's `inBounds` (conclusion of start_clamp_in_bounds) against bounded_function's own test
         lo_a = numpy.array([-numpy.inf if v is None else v for v in lo], float)
         hi_a = numpy.array([numpy.inf if v is None else v for v in hi], float)
